@@ -627,20 +627,9 @@ func runC12(c *Ctx, w *World, r *Report) {
 		bad := ""
 		var base *ssa.Phi
 		nst := 0
-		eachInstr(fn, func(ins ssa.Instruction) {
-			st, ok := ins.(*ssa.Store)
-			if !ok {
-				return
-			}
-			ia, ok := st.Addr.(*ssa.IndexAddr)
-			if !ok || containerRole(ia.X) != "local" {
-				return
-			}
-			if al, isAl := addrBase(ia.X).(*ssa.Alloc); isAl && strings.Contains(al.Comment, "varargs") {
-				return
-			}
+		checkVal := func(val ssa.Value) {
 			nst++
-			L := fa.Lin(st.Val)
+			L := fa.Lin(val)
 			if len(L.T) != 2 || L.K != 0 {
 				bad = "rebased position is " + L.String() + ", expected base + p"
 				return
@@ -662,6 +651,26 @@ func runC12(c *Ctx, w *World, r *Report) {
 				}
 				if _, ok, why := fullRangeElem(fa, v); !ok {
 					bad = "inner enumeration incomplete: " + why
+				}
+			}
+		}
+		// the rebased positions are collected either by an indexed store into the list or by appending to it
+		eachInstr(fn, func(ins ssa.Instruction) {
+			switch x := ins.(type) {
+			case *ssa.Store:
+				ia, ok := x.Addr.(*ssa.IndexAddr)
+				if !ok || containerRole(ia.X) != "local" {
+					return
+				}
+				if al, isAl := addrBase(ia.X).(*ssa.Alloc); isAl && strings.Contains(al.Comment, "varargs") {
+					return
+				}
+				checkVal(x.Val)
+			case *ssa.Call:
+				if vals := appendedValues(x); len(vals) > 0 && containerRole(x.Common().Args[0]) == "local" {
+					for _, v := range vals {
+						checkVal(v)
+					}
 				}
 			}
 		})
